@@ -49,6 +49,7 @@ struct input {
 	unsigned stages;
 	enum filetype filetype;
 	bool lib;
+	bool temp;  /* name is a temporary object created by buildobj */
 };
 
 static struct {
@@ -215,6 +216,17 @@ succeeded(const char *phase, pid_t pid, int status)
 }
 
 static void
+removetemps(struct input *inputs, size_t ninputs)
+{
+	size_t i;
+
+	for (i = 0; i < ninputs; ++i) {
+		if (inputs[i].temp)
+			unlink(inputs[i].name);
+	}
+}
+
+static bool
 buildobj(struct input *input, char *output)
 {
 	const char *phase;
@@ -224,7 +236,7 @@ buildobj(struct input *input, char *output)
 	bool success = true;
 
 	if (input->filetype == OBJ)
-		return;
+		return true;
 	if (input->stages & 1<<LINK) {
 		input->stages &= ~(1<<LINK);
 		output = strdup("/tmp/cproc-XXXXXX");
@@ -234,6 +246,7 @@ buildobj(struct input *input, char *output)
 		if (fd < 0)
 			fatal("mkstemp:");
 		close(fd);
+		input->temp = true;
 	} else if (output) {
 		if (strcmp(output, "-") == 0)
 			output = NULL;
@@ -289,8 +302,9 @@ kill:
 	if (!success) {
 		if (output)
 			unlink(output);
-		exit(1);
+		input->temp = false;
 	}
+	return success;
 }
 
 static void
@@ -317,14 +331,14 @@ buildexe(struct input *inputs, size_t ninputs, char *output)
 	arrayaddptr(&s->cmd, NULL);
 
 	ret = spawn(&pid, &s->cmd, NULL);
-	if (ret)
-		fatal("%s: spawn \"%s\": %s", s->name, *(char **)s->cmd.val, strerror(errno));
-	if (waitpid(pid, &status, 0) < 0)
-		fatal("waitpid %ju:", (uintmax_t)pid);
-	for (i = 0; i < ninputs; ++i) {
-		if (inputs[i].filetype != OBJ)
-			unlink(inputs[i].name);
+	if (ret) {
+		removetemps(inputs, ninputs);
+		fatal("%s: spawn \"%s\": %s", s->name, *(char **)s->cmd.val, strerror(ret));
 	}
+	ret = waitpid(pid, &status, 0);
+	removetemps(inputs, ninputs);
+	if (ret < 0)
+		fatal("waitpid %ju:", (uintmax_t)pid);
 	exit(!succeeded(s->name, pid, status));
 }
 
@@ -412,6 +426,7 @@ main(int argc, char *argv[])
 			input = arrayadd(&inputs, sizeof(*input));
 			input->name = arg;
 			input->lib = false;
+			input->temp = false;
 			input->filetype = filetype == NONE && strcmp(arg, "-") != 0 ? detectfiletype(arg) : filetype;
 			switch (input->filetype) {
 			case ASM:    input->stages =                                     1<<ASSEMBLE|1<<LINK; break;
@@ -479,6 +494,7 @@ main(int argc, char *argv[])
 				input = arrayadd(&inputs, sizeof(*input));
 				input->name = nextarg(&argv);
 				input->lib = true;
+				input->temp = false;
 				input->filetype = OBJ;
 				input->stages = 1<<LINK;
 				break;
@@ -580,7 +596,10 @@ main(int argc, char *argv[])
 			continue;
 		/* only run up through the last stage */
 		input->stages &= (1 << last + 1) - 1;
-		buildobj(input, output);
+		if (!buildobj(input, output)) {
+			removetemps(inputs.val, inputs.len / sizeof(*input));
+			return 1;
+		}
 	}
 	if (last == LINK) {
 		if (!output)
